@@ -566,8 +566,6 @@ impl<R: data::RequestEncoder> OtlpTransport<R> {
                             return Err(e.map_retryable(|r| r.map(|_| channel)));
                         }
                     }
-
-                    channel.requests.pop();
                 }
             }
         }
